@@ -34,7 +34,7 @@ TEXT = {
          "The model is tied to the library by byte-exact produce + consume correspondence over 6 kinds x 24 algorithms x 3 tag forms",
          "signature correctness assumed (cross-checked by Lean ECDSA/Ed25519); caller-supplied protected maps, nested-map header values, nested recipients and COSE_Encrypt with recipients by correspondence only", T, "7.1"),
  "C02": ("Lean theorems: verification soundness (success implies the primitive accepted exactly the RFC 9052 structure of the received protected/payload bytes and caller's external data), injectivity of the structure "
-         "(tampering = forgery), kind change changes the bytes, zero signatures / unmatched kid / any failing signature reject, and conversely a genuine COSE_Sign of any number of signers verifies (C01Sign); history freedom over regenerated footprints (UnmarshalCBOR overwrites every field Verify reads, Verify recomputes the to-be-signed bytes and writes nothing else). Executable model with Lean primitives predicts the verdict of every mutated message in the run",
+         "(tampering = forgery), kind change changes the bytes, zero signatures / unmatched kid / any failing signature reject, a null or non-array entry in the signatures list makes the message undecodable (one signature object per wire element), and conversely a genuine COSE_Sign of any number of signers verifies (C01Sign); history freedom over regenerated footprints (UnmarshalCBOR overwrites every field Verify reads, Verify recomputes the to-be-signed bytes and writes nothing else). Executable model with Lean primitives predicts the verdict of every mutated message in the run",
          "unforgeability of the primitives assumed", T, "7.2"),
  "C03": ("Lean theorems: decrypt soundness (success implies the AEAD opened the received ciphertext under the nonce derived from the received headers with AAD = RFC 9052 Enc_structure), AAD injectivity, "
          "payload untouched on every failure; Decrypt recomputes the Enc_structure on every call (regenerated footprint); with C12's uniqueness an accepted change is a tag forgery. Mutation run with payload inspection after failed Decrypt, reuse of one message object / encryptor across two messages (msg.reuse), and the AEAD primitives themselves (prim:aead)",
